@@ -123,8 +123,48 @@ def run(tier, seed):
                 if ok:
                     violations.append({'name': 'bounded[schema-validation:%s]' % q,
                                        'what': 'accepted with %d x %s (%s %r)' % (count, name, label, card)})
+    # ---- the same violations NESTED under a parent that declares the class as a child: an invalid child makes the parent invalid
+    parent_of = {}
+    for pc in classes:
+        for key, (name, spec) in pc.c_children.items():
+            member = spec[0] if isinstance(spec, list) else spec
+            if isinstance(member, type) and member is not pc and member not in parent_of:
+                parent_of[member] = (pc, name, isinstance(spec, list))
+    nested = 0
+    for cls, (pc, pname, is_list) in sorted(parent_of.items(), key=lambda kv: '%s.%s' % (kv[0].__module__, kv[0].__name__)):
+        q = '%s.%s' % (cls.__module__, cls.__name__)
+        req = [name for key, (name, typ, required) in cls.c_attributes.items() if required]
+        need_child = [name for key, (name, spec) in cls.c_children.items() if (cls.c_cardinality.get(name) or {}).get('min')]
+        if not req and not need_child:
+            continue
+        try:
+            parent = make_valid(pc)
+            good_child = make_valid(cls)
+            setattr(parent, pname, [good_child] if is_list else good_child)
+            ok, _ = accepted(parent)
+        except Exception:
+            continue
+        if not ok:
+            continue            # no valid parent could be generated: nothing to compare with
+        variants = [('completely empty', cls())]
+        if req:
+            v = make_valid(cls)
+            setattr(v, req[0], None)
+            variants.append(('without required attribute %s' % req[0], v))
+        for label, child in variants:
+            n += 1
+            nested += 1
+            parent = make_valid(pc)
+            setattr(parent, pname, [child] if is_list else child)
+            try:
+                ok, _ = accepted(parent)
+            except Exception:
+                ok = False
+            if ok:
+                violations.append({'name': 'bounded[schema-validation:%s]' % q,
+                                   'what': 'accepted nested under %s.%s: child %s' % (pc.__name__, pname, label)})
     return {'name': 'schema_validation', 'label': 'BOUNDED (every class: valid instance accepted, each declared constraint violated in isolation rejected)',
-            'bound': '%d schema classes, one violation at a time, children to depth 2' % len(classes),
+            'bound': '%d schema classes, one violation at a time, children to depth 2; %d nested invalid-child cases' % (len(classes), nested),
             'evaluations': n, 'classes_with_valid_instance': distinct, 'violations': violations}
 
 
